@@ -997,6 +997,21 @@ impl Context {
             self.push_inst(Instruction::Call(fid, vec![], default_arg_data.ty))
         })
     }
+    /// Makes the variable `v` of the function `level` closure levels above the current one an
+    /// upvalue of the current function and returns its index there. Every function in between
+    /// gets an upvalue for it too: a closure refers to a variable further out through the
+    /// upvalue of the closure that creates it, so that all of them share the variable's cell.
+    fn get_or_insert_upvalue(&mut self, level: usize, v: &VPtr, ty: TypeNodeId) -> u64 {
+        let upi = (0..level).rev().fold(v.clone(), |upv, i| {
+            let func_i = self.data[self.data_i - i].func_i.0 as usize;
+            let upi = self.program.functions[func_i].get_or_insert_upvalue(&upv, ty);
+            Arc::new(Value::UpValue(upi))
+        });
+        match upi.as_ref() {
+            Value::UpValue(upi) => *upi as u64,
+            _ => unreachable!("an upvalue is at least one level above"),
+        }
+    }
     fn lookup(&self, key: &Symbol) -> LookupRes<VPtr> {
         match self.valenv.lookup_cls(key) {
             LookupRes::Local(v) => LookupRes::Local(v.clone()),
@@ -1609,28 +1624,13 @@ impl Context {
                     self.push_inst(Instruction::Load(ptr, t))
                 }
             },
-            LookupRes::UpValue(level, v) => {
-                (0..level)
-                    .rev()
-                    .fold(v.clone(), |upv, i| match upv.as_ref() {
-                        Value::Function(_fi) => v.clone(),
-                        _ => {
-                            let res = self.gen_new_register();
-                            let current = self.data.get_mut(self.data_i - i).unwrap();
-                            let currentf = self
-                                .program
-                                .functions
-                                .get_mut(current.func_i.0 as usize)
-                                .unwrap();
-                            let upi = currentf.get_or_insert_upvalue(&upv) as _;
-                            let currentbb = currentf.body.get_mut(current.current_bb).unwrap();
-                            currentbb
-                                .0
-                                .push((res.clone(), Instruction::GetUpValue(upi, t)));
-                            res
-                        }
-                    })
-            }
+            LookupRes::UpValue(level, v) => match v.as_ref() {
+                Value::Function(_fi) => v.clone(),
+                _ => {
+                    let upi = self.get_or_insert_upvalue(level, &v, t);
+                    self.push_inst(Instruction::GetUpValue(upi, t))
+                }
+            },
             LookupRes::Global(v) => match v.as_ref() {
                 Value::Global(_gv) => self.push_inst(Instruction::GetGlobal(v.clone(), t)),
                 Value::Function(_) | Value::Register(_) => v.clone(),
@@ -1640,16 +1640,16 @@ impl Context {
         }
     }
     /// Evaluates an assignee expression and returns a VPtr that is a pointer to the destination.
-    fn eval_destination_ptr(&mut self, assignee: ExprNodeId) -> AssignDestination {
+    /// `t` is the type of the value to be stored.
+    fn eval_destination_ptr(&mut self, assignee: ExprNodeId, t: TypeNodeId) -> AssignDestination {
         match assignee.to_expr() {
             Expr::Var(name) => {
                 // For a simple variable, lookup its pointer from the environment.
                 match self.lookup(&name) {
                     LookupRes::Local(v_ptr) => AssignDestination::Local(v_ptr.clone()),
                     LookupRes::Global(v_ptr) => AssignDestination::Global(v_ptr.clone()),
-                    LookupRes::UpValue(_level, v_ptr) => {
-                        let currentf = self.get_current_fn();
-                        let upi = currentf.get_or_insert_upvalue(&v_ptr) as _;
+                    LookupRes::UpValue(level, v_ptr) => {
+                        let upi = self.get_or_insert_upvalue(level, &v_ptr, t);
                         AssignDestination::UpValue(upi, v_ptr.clone())
                     }
                     LookupRes::None => {
@@ -1707,7 +1707,7 @@ impl Context {
     }
 
     fn eval_assign(&mut self, assignee: ExprNodeId, src: VPtr, t: TypeNodeId) {
-        match self.eval_destination_ptr(assignee) {
+        match self.eval_destination_ptr(assignee, t) {
             AssignDestination::CopiedElement(ptr, AggregateCopy { home, copy, ty }) => {
                 // A one-word aggregate is its only element: the new value replaces it as a
                 // whole (the back ends keep such a value in a register, not behind a pointer).
@@ -2046,10 +2046,10 @@ impl Context {
                         let home = AggregateHome::Global(global);
                         (copy.clone(), Some(AggregateCopy { home, copy, ty }))
                     }
-                    LookupRes::UpValue(_level, upvalue) => {
+                    LookupRes::UpValue(level, upvalue) => {
                         let ty = self.typeenv.infer_type(e).unwrap();
                         let ty = self.canonical_record_type_id(ty);
-                        let upi = self.get_current_fn().get_or_insert_upvalue(&upvalue) as u64;
+                        let upi = self.get_or_insert_upvalue(level, &upvalue, ty);
                         let copy = self.push_inst(Instruction::GetUpValue(upi, ty));
                         let home = AggregateHome::UpValue(upi);
                         (copy.clone(), Some(AggregateCopy { home, copy, ty }))
